@@ -722,23 +722,32 @@ func genFraming(t *rapid.T) []HL {
 		add("Content-Length", a+","+a)
 		add("Content-Length", a+" , "+b)
 	}
-	switch rapid.IntRange(0, 13).Draw(t, "te_mode") {
-	case 0:
-		add("Transfer-Encoding", "chunked")
-	case 1:
-		add("Transfer-Encoding", "gzip, chunked")
-	case 2:
-		add("Transfer-Encoding", "gzip")
-	case 3:
-		add("Transfer-Encoding", "chunked, gzip")
-	case 4:
-		add("Transfer-Encoding", "gzip")
-		add("Transfer-Encoding", "chunked")
-	case 5:
-		add("Transfer-Encoding", "chunked")
-		add("Transfer-Encoding", "gzip")
-	case 6:
-		add("Transfer-Encoding", "gzip ,  chunked")
+	if rapid.Bool().Draw(t, "te_present") {
+		out = append(out, genTE(t)...)
+	}
+	return out
+}
+
+// genTE draws Transfer-Encoding as 1..3 lines of 1..3 codings each, with
+// "chunked" at any position (first-not-last, middle, last, repeated, absent);
+// in half of the draws the final coding is forced to "chunked".
+func genTE(t *rapid.T) []HL {
+	codings := []string{"chunked", "chunked", "gzip", "deflate", "identity"}
+	lines := make([][]string, rapid.IntRange(1, 3).Draw(t, "te_lines"))
+	for i := range lines {
+		for j, k := 0, rapid.IntRange(1, 3).Draw(t, "te_codings"); j < k; j++ {
+			lines[i] = append(lines[i], rapid.SampledFrom(codings).Draw(t, "te_coding"))
+		}
+	}
+	if rapid.Bool().Draw(t, "te_end_chunked") {
+		l := lines[len(lines)-1]
+		l[len(l)-1] = "chunked"
+	}
+	var out []HL
+	for _, l := range lines {
+		sep := rapid.SampledFrom([]string{", ", ",", " , ", ",  "}).Draw(t, "te_sep")
+		n, _ := recase(t, "Transfer-Encoding")
+		out = append(out, HL{N: n, V: strings.Join(l, sep)})
 	}
 	return out
 }
@@ -1015,4 +1024,6 @@ func TestEnumerated(t *testing.T) {
 	})
 }
 
-func TestReplay(t *testing.T) { kit.Replay(t, propStack, propEnum, propWire, propChain, propChainWire) }
+func TestReplay(t *testing.T) {
+	kit.Replay(t, propStack, propEnum, propWire, propChain, propChainWire, propFraming, propFramingEnum, propMITM)
+}
